@@ -4,7 +4,8 @@ import Driver.Util
 /- `svtmodel config`
    CASE <dirty byte> name=value name[i]=value ...   -> accept=<0|1> op=<0|1> oob=<0|1> spec=<0|1> fired=<comma list of check indices>
        (accept: generated normal form; op: generated operational composition; spec: hand-written CodeDomain)
-       the configuration is `initParam (fillByte dirty)` with the listed overrides, the prior SCS state is the zero state
+       the configuration is `initParam (fillByte dirty)` with the listed overrides, the prior SCS state is the zero state;
+       members of `pred_struct[i]` are written `pred_struct_<member>[i]`, list members `pred_struct_ref_listX[i*4+j]`
    DUMP <dirty byte>                                -> one `name value` line per member of `initParam (fillByte dirty)`, then END -/
 namespace Driver
 open Gen.Config
